@@ -239,7 +239,20 @@ def run(ctx):
         from ..prov import derive as _derive, index_of as _index_of
 
         hix = _index_of(mfb)
-        latin1 = any(st_.get("rv", {}).get("k") == "cast" and (st_["lhs"].get("ty") or mfb.locals[st_["lhs"]["l"]]["ty"]) == "char" for _b, _s, st_ in mfb.stmts() if st_["k"] == "assign")
+        def _bytes_as_chars(b_):
+            if any(st_.get("rv", {}).get("k") == "cast" and (st_["lhs"].get("ty") or b_.locals[st_["lhs"]["l"]]["ty"]) == "char" for _b, _s, st_ in b_.stmts() if st_["k"] == "assign"):
+                return True
+            return any("<char as std::convert::From<u8>>::from" in (t__.get("resn") or t__.get("res") or "") for _bi, t__ in b_.calls())
+
+        # the decode may sit in a closure handed to an iterator adaptor (`bytes.iter().map(|&c| c as char).collect()`),
+        # also inside an inlined helper: follow the closures constructed in the (inlined) body
+        cl_names = {st_["rv"].get("closure") for _b, _s, st_ in mfb.stmts() if st_["k"] == "assign" and st_["rv"].get("k") == "agg" and st_["rv"].get("closure")}
+        for _bi, t__ in mfb.calls():
+            for o_ in t__["args"]:
+                k_ = o_.get("k") if isinstance(o_, dict) else None
+                if isinstance(k_, dict) and k_.get("closure"):
+                    cl_names.add(k_["closure"])
+        latin1 = _bytes_as_chars(mfb) or any(_bytes_as_chars(prog.raw_bodies[c_]) for c_ in cl_names if c_ in prog.raw_bodies)
         n_heap, textlen = 0, []
         for bi_, t_ in mfb.calls():
             if hix.callee(t_).split("::")[-1] == "get" and len(t_["args"]) == 2 and "strings" in _derive(hix, t_["args"][0]).names:
